@@ -3,25 +3,35 @@ import WP.Props.C06
 import WP.Props.C07
 import WP.Props.C08
 import WP.Model.Hist
+import WP.Props.Solvency.Final
 /-
   Property C01 — pool solvency: every outstanding claim on a vault can always be paid.
 
-  STATUS: PARTIAL.  The composite invariant  vault ≥ protocol fees owed + Σ fees owed + Σ withdrawable
-  over ALL histories (`Solvent` below) is stated but not yet proved in Lean.  What is proved are the
-  four mechanisms it rests on, each for all inputs:
-    (1) deposits round up and withdrawals round down, so a position never withdraws more than it
-        put in at an unchanged price                                     (deposit_covers_withdrawal)
-    (2) a swap step takes at least the exact curve input and pays at most the exact curve output
-                                                                         (step_pool_never_loses)
-    (3) every unit of fee that becomes a claim (protocol fees owed, LP fee growth) was received by
-        the vault in the same swap: paid = Σ in + Σ fee, Σ fee = lp_fee + protocol_fee (fees_backed)
-    (4) a position is never credited more than L·Δgrowth/2^64                    (C07.credit_le)
-  The invariant itself, the drain in rotating orders at EVERY prefix of every explored history, and
-  the no-free-lunch clause are checked on the implementation by the history harness' oracles
-  (hist_oracle.rs: c01_drain, trader ledger) and by the model correspondence.
+  STATUS: PROVED for the history state machine `histStep` / `histApply` (WP.Model.Hist: a pool over an
+  abstract tick map with any number of positions; operations open position, increase / decrease
+  liquidity, update fees, collect fees, collect protocol fees, swap (static or adaptive fee, any amount,
+  direction, mode, limit, over any aligned consecutive array sequence), reward configuration and
+  collection, clock moves; a failing operation changes nothing).  The helper development is in
+  WP/Props/Solvency/*.lean; this file states the property theorems.
+
+    (I)   `solvent`         after ANY finite history each vault holds at least the protocol fees owed plus,
+                            for every position, its owed fees, the fee it would be credited if touched
+                            now and the tokens returned by withdrawing all its liquidity now
+    (II)  `funds_suffice`   hence none of the four transfers out of a vault can lack funds in a reachable
+                            state — draining in any order succeeds
+    (III) `no_free_lunch`   a swap-only history never leaves the vaults with less of one token and no more
+                            of the other: whoever only swaps never gains one token without losing the other
+
+  The invariant behind (I)–(III) is over EXACT rational claims (`Solv.claims`): Σ L·2^64·(1/p̄ − 1/p_u),
+  Σ L·(p̄ − p_l)/2^64, Σ L·pend/2^64 — the program takes ceilings of these and pays floors.
+
+  The mechanisms (1)–(4) below were the first stage and stay as independent statements.
+  Hypotheses that remain visible: swaps run over aligned consecutive array sequences (`OpOK`; what the
+  account loader builds: `Reach.buildSeq_seqOK`) with a u64 amount; the pool starts empty with in-bounds
+  price / fee rate / protocol fee rate (`solv_init`; C19 is about those bounds).
 -/
 namespace WP.C01
-open WP WP.Gen
+open WP WP.Gen WP.Reach WP.Path WP.Solv
 
 /-- (1) -/
 theorem deposit_covers_withdrawal (curTick : Int) (price : Nat) (lower upper : Int) (L : Nat) (ai bi ad bd : Nat)
@@ -53,11 +63,121 @@ theorem fees_backed (p : PoolD) (ticks : TickMap) (arrays : List Int) (amount li
   have := C06.swap_accounting p ticks arrays amount limit isInput aToB now af fuel u hp h
   omega
 
-/-- the remaining obligation: the solvency invariant over all histories (floor-valued claims) -/
+/-! ### the property -/
+
+variable {ts0 : Nat}
+
+/-- the state after a history started on a fresh pool -/
+def after (p : PoolD) (now : Nat) (af : Option AfInfo) (ops : List HistOp) : HistState :=
+  ops.foldl histApply { pool := p, now := now, af := af }
+
+/-- a fresh pool: no liquidity, nothing owed, price / tick consistent and in bounds, rates in bounds -/
+structure Fresh (p : PoolD) (af : Option AfInfo) : Prop where
+  liq : p.liq = 0
+  ts : 0 < p.ts
+  fee : p.feeRate ≤ FEE_RATE_HARD_LIMIT
+  proto : p.protoRate ≤ PROTOCOL_FEE_RATE_MUL_VALUE
+  price_lo : MIN_SQRT_PRICE_X64 ≤ p.price
+  price_hi : p.price ≤ MAX_SQRT_PRICE_X64
+  tick : p.tick = ti p.price
+  pfA : p.pfA = 0
+  pfB : p.pfB = 0
+  fgA : p.fgA < TWO128
+  fgB : p.fgB < TWO128
+  af : ∀ info, af = some info → InfoOK info
+
+theorem fresh_inv (p : PoolD) (now : Nat) (af : Option AfInfo) (f : Fresh p af) :
+    SolvInv p.ts { pool := p, now := now, af := af } :=
+  solv_init p now af f.liq f.ts f.fee f.price_lo f.price_hi f.tick f.af f.proto f.pfA f.pfB f.fgA f.fgB
+
+theorem reachable (p : PoolD) (now : Nat) (af : Option AfInfo) (ops : List HistOp) (f : Fresh p af)
+    (hops : ∀ op ∈ ops, OpOK p.ts op) : SolvInv p.ts (after p now af ops) :=
+  reach_solvent ops _ (fresh_inv p now af f) hops
+
+/-- **C01 (I)**: after any history, for token A (`true`) and token B (`false`):
+    protocol fees owed + Σ over positions of (fees owed + fee credited if touched now + tokens returned by
+    withdrawing all liquidity at the current price)  ≤  vault balance -/
+theorem solvent (p : PoolD) (now : Nat) (af : Option AfInfo) (ops : List HistOp) (f : Fresh p af)
+    (hops : ∀ op ∈ ops, OpOK p.ts op) (tokA : Bool) :
+    pfOf tokA (after p now af ops) +
+      sumN (fun q => owedN tokA q + creditNow tokA (after p now af ops) q + withdrawAll tokA (after p now af ops) q)
+        (after p now af ops).positions ≤ vaultOf tokA (after p now af ops) :=
+  payable tokA _ (reachable p now af ops f hops)
+
+/-- the statement of the first stage (floor-valued claims, fees only) is a consequence -/
 def Solvent (s : HistState) : Prop :=
   ∀ (claimsA claimsB : Nat),
     claimsA = s.pool.pfA + (s.positions.map fun (_, q) => q.owedA).sum →
     claimsB = s.pool.pfB + (s.positions.map fun (_, q) => q.owedB).sum →
     claimsA ≤ s.vaultA ∧ claimsB ≤ s.vaultB
+
+theorem map_sum_le (f g : PositionD → Nat) (h : ∀ q, f q ≤ g q) : ∀ l : List (Nat × PositionD),
+    (l.map fun x => f x.2).sum ≤ sumN g l := by
+  intro l
+  induction l with
+  | nil => simp [sumN]
+  | cons hd tl ih =>
+    obtain ⟨k, w⟩ := hd
+    simp only [List.map_cons, List.sum_cons, sumN]
+    have := h w
+    omega
+
+theorem solvent_floor (p : PoolD) (now : Nat) (af : Option AfInfo) (ops : List HistOp) (f : Fresh p af)
+    (hops : ∀ op ∈ ops, OpOK p.ts op) : Solvent (after p now af ops) := by
+  intro cA cB hA hB
+  have a := solvent p now af ops f hops true
+  have b := solvent p now af ops f hops false
+  have a' := map_sum_le (fun q => q.owedA)
+    (fun q => owedN true q + creditNow true (after p now af ops) q + withdrawAll true (after p now af ops) q)
+    (fun q => by unfold owedN; simp only [if_true]; omega) (after p now af ops).positions
+  have b' := map_sum_le (fun q => q.owedB)
+    (fun q => owedN false q + creditNow false (after p now af ops) q + withdrawAll false (after p now af ops) q)
+    (fun q => by unfold owedN; simp only [Bool.false_eq_true, if_false]; omega) (after p now af ops).positions
+  have eA : ((after p now af ops).positions.map fun (_, q) => q.owedA) = ((after p now af ops).positions.map fun x => x.2.owedA) := rfl
+  have eB : ((after p now af ops).positions.map fun (_, q) => q.owedB) = ((after p now af ops).positions.map fun x => x.2.owedB) := rfl
+  unfold pfOf vaultOf at a b
+  simp only [if_true, Bool.false_eq_true, if_false] at a b
+  constructor
+  · rw [hA, eA]; omega
+  · rw [hB, eB]; omega
+
+/-- **C01 (II)**: in every reachable state, collecting protocol fees, collecting any position's fees,
+    removing any accepted amount of any position's liquidity and paying the output of any swap never
+    exceed the vault balance -/
+theorem funds_suffice (p : PoolD) (now : Nat) (af : Option AfInfo) (ops : List HistOp) (f : Fresh p af)
+    (hops : ∀ op ∈ ops, OpOK p.ts op) :
+    let s := after p now af ops
+    (s.pool.pfA ≤ s.vaultA ∧ s.pool.pfB ≤ s.vaultB) ∧
+    (∀ id pos, posGet s.positions id = some pos → pos.owedA ≤ s.vaultA ∧ pos.owedB ≤ s.vaultB) ∧
+    (∀ id pos (amount : Nat) u da db, posGet s.positions id = some pos →
+        calculateModifyLiquidity s.pool pos (s.ticks.get pos.lower) (s.ticks.get pos.upper) (-(amount : Int)) s.now = .ok u →
+        calculateLiquidityTokenDeltas s.pool.tick s.pool.price pos.lower pos.upper (-(amount : Int)) = .ok (da, db) →
+        da ≤ s.vaultA ∧ db ≤ s.vaultB) ∧
+    (∀ amount limit isInput aToB arrays u, SeqOK arrays s.pool.ts aToB → amount ≤ U64_MAX →
+        swap s.pool s.ticks arrays amount limit isInput aToB s.now s.af SWAP_FUEL = .ok u →
+        (if aToB then u.amountB ≤ s.vaultB else u.amountA ≤ s.vaultA)) :=
+  Solv.funds_suffice _ (reachable p now af ops f hops)
+
+/-- **C01 (III)**: from any reachable state, any sequence of swaps leaves the vaults NOT with (less of
+    one token and no more of the other) -/
+theorem no_free_lunch (p : PoolD) (now : Nat) (af : Option AfInfo) (ops swaps : List HistOp) (f : Fresh p af)
+    (hops : ∀ op ∈ ops, OpOK p.ts op) (hsw : ∀ op ∈ swaps, OpOK p.ts op ∧ IsSwap op) :
+    let s := after p now af ops
+    let s' := swaps.foldl histApply s
+    ¬ (s'.vaultA ≤ s.vaultA ∧ s'.vaultB ≤ s.vaultB ∧ (s'.vaultA < s.vaultA ∨ s'.vaultB < s.vaultB)) :=
+  Solv.no_free_lunch swaps _ (reachable p now af ops f hops) hsw
+
+/-! ### non-vacuity: a concrete history meets every hypothesis, holds claims, and the theorems bite -/
+
+example : Fresh Reach.exPool none :=
+  { liq := rfl, ts := by decide, fee := by decide, proto := by decide, price_lo := by decide, price_hi := by decide,
+    tick := by decide +kernel, pfA := rfl, pfB := rfl, fgA := by decide, fgB := by decide, af := fun _ h => by cases h }
+
+-- the example history of Reach.lean (two positions, a crossing swap down, a swap back up) leaves non-zero
+-- protocol fees, a positive vault on both sides, and the trader of the two swaps has lost token A
+example : let s0 := after Reach.exPool 10 none (Reach.exOps.take 4)
+          let s := after Reach.exPool 10 none Reach.exOps
+          (0 < s.pool.pfA ∧ 0 < s.vaultA ∧ 0 < s.vaultB ∧ s0.vaultA < s.vaultA ∧ s.positions.length = 2) = True := by
+  decide +kernel
 
 end WP.C01
